@@ -2,7 +2,7 @@
    Proved: (1) machines whose steps touch only their own instance state give, under EVERY
    interleaving, exactly the result of their solo runs; (2) on the current source, module-level
    state of the C extension is written only by module initialisation (and the idempotent lazy load of
-   ParserError), the Python package has no `global` statement, and each tokenizer call depends only
+   ParserError), the Python package has no `global` statement and creates no Tokenizer / Builder / Parser instance at import time or on a class, a Parser's parts are fresh instances made in its __init__, and each tokenizer call depends only
    on its own instance (C06).  NOT modelled: the GIL, CPython's own thread safety, the memory model;
    validated by a thread stress run against sequential results. *)
 From Coq Require Import String List Bool Arith.
@@ -22,8 +22,16 @@ Definition module_init_functions : list string :=
   ["PyInit__tokenizer"; "load_tokens_from_module"; "load_defs"; "load_entities"; "load_exceptions"].
 
 Theorem C19_no_shared_mutable_state :
-  writers_allowed module_init_functions c_globals = true /\ python_global_statements = [].
-Proof. vm_compute. split; reflexivity. Qed.
+  writers_allowed module_init_functions c_globals = true /\ python_global_statements = [] /\
+  python_shared_instances = [].
+Proof. vm_compute. repeat split; reflexivity. Qed.
+
+(* every part a Parser stores is a fresh instance (or a constant) made in its own __init__ *)
+Theorem C19_parser_parts_are_fresh :
+  forallb (fun p => orb (String.eqb (snd p) "new") (String.eqb (snd p) "const")) parser_part_sources = true /\
+  existsb (fun p => String.eqb (fst p) "_builder") parser_part_sources = true /\
+  existsb (fun p => String.eqb (fst p) "_tokenizer") parser_part_sources = true.
+Proof. vm_compute. repeat split; reflexivity. Qed.
 
 Theorem C19_instances_own_their_state :
   subset tokenizer_fields tokenizer_reset = true /\ subset ctokenizer_fields ctokenizer_reset = true /\
@@ -33,3 +41,4 @@ Proof. vm_compute. repeat split; reflexivity. Qed.
 Print Assumptions C19_interleave_independent.
 Print Assumptions C19_no_shared_mutable_state.
 Print Assumptions C19_instances_own_their_state.
+Print Assumptions C19_parser_parts_are_fresh.
